@@ -61,7 +61,7 @@ def unresolvable(doc):
 def make_case(ctx, g):
     w = World()
     fails = []
-    b = DocBuilder(g, w, malformed=0.0, repeat_id=0.25, refused=0.15)
+    b = DocBuilder(g, w, malformed=0.0, repeat_id=0.25, refused=0.15, reinstant=0.15)
     d, scopes = b.random_document(n_records=g.rng.randint(1, 8))
     doc = w.conts[d]
     flags = set()
@@ -84,6 +84,10 @@ def make_case(ctx, g):
         o, _so = b.random_document(n_records=g.rng.randint(1, 4))
         if w.update(d, o) is None:
             flags.add("arrived-by-update")
+        # which prefix a copied namespace receives can depend on Python's iteration order over a set of attribute values (the
+        # admissible prefix-level divergence): the document is observed here, so that such a history is recognised at the
+        # observation and not at the text the writer emits afterwards
+        w.obs(d)
     if len(scopes) > 1 or list(doc.bundles):
         flags.add("bundles")
     if any(c.get_default_namespace() is not None for c in [doc] + list(doc.bundles)):
